@@ -313,6 +313,41 @@ def run_reduction_grid(ctx, monitor):
                             ctx.fail(case, f"numpoly.{nm}{kw} on constants {a.tolist()}: {diff}", tags + ["value" if "values" in diff else "shape" if "shape" in diff else "type"])
 
 
+def run_narrow_reductions(ctx, monitor):
+    """reductions of constants stored in integer types narrower than the platform integer, with values whose sum /
+    product leaves the narrow type: numpy accumulates in the platform integer (D47)"""
+    from ..extract import tables
+    registered = {k.split(".")[-1] for k, _ in tables()["ufuncRegistry"]} | {k.split(".")[-1] for k, _ in tables()["functionRegistry"]}
+    data = {"uint8": [[16, 16], [200, 100, 3], [[16, 16], [3, 5]]], "int8": [[100, 100], [-100, 50, 2], [[64, 2], [2, 64]]],
+            "int16": [[300, 300], [[20000, 2], [2, 20000]]], "uint16": [[300, 300]], "int32": [[2 ** 20, 2 ** 20], [2 ** 30, 2 ** 30, 2]],
+            "uint32": [[2 ** 20, 2 ** 20]], "bool": [[True, True, True], [[True, False], [True, True]]]}
+    for nm in ("sum", "prod", "cumsum", "cumprod", "mean"):
+        if nm not in registered:
+            continue
+        for dt, arrays in data.items():
+            for values in arrays:
+                a = numpy.array(values, dtype=dt)
+                for ax in [None] + list(range(-a.ndim, a.ndim)):
+                    kw = {} if ax is None else {"axis": ax}
+                    case = {"kind": "const", "function": nm, "arrays": [a.tolist()], "dtypes": [dt], "args": dict(kw), "grid": True}
+                    tags = [f"fn:{nm}", "narrow-dtype", f"dtype:{dt}"]
+                    with warnings.catch_warnings():
+                        warnings.simplefilter("ignore")
+                        want = getattr(numpy, nm)(a.copy(), **kw)
+                        ctx.evaluations += 1
+                        ctx.count("narrow-reductions")
+                        p = numpoly.polynomial(a)
+                        try:
+                            with monitor.watch(f"C11:{nm}", p):
+                                got = getattr(numpoly, nm)(p, **kw)
+                            diff = same(plain(got), want, nm)
+                        except Exception as err:  # noqa: BLE001
+                            ctx.fail(case, f"numpoly.{nm}{kw} on {dt} constants {a.tolist()} raised {type(err).__name__}: {str(err)[:120]}", tags + [f"raises:{err_kind(err)}"])
+                            continue
+                        if diff:
+                            ctx.fail(case, f"numpoly.{nm}{kw} on {dt} constants {a.tolist()}: {diff}", tags + ["value" if "values" in diff else "shape" if "shape" in diff else "type"])
+
+
 def run_division(ctx):
     q0, q1 = numpoly.variable(2)
     divisors = [q0, numpoly.polynomial([q0, 2]), q0 * q1 + 1]
@@ -340,6 +375,7 @@ def run(ctx):
     monitor = Monitor()
     run_table(ctx, monitor)
     run_reduction_grid(ctx, monitor)
+    run_narrow_reductions(ctx, monitor)
     run_division(ctx)
     ctx.extra["argument_monitor"] = {"calls": monitor.calls, "mutations": monitor.events[:5]}
     ctx.sample({"function": "argmax", "array": [[3, 1, 3]], "axis": 1, "numpy": [0]})
